@@ -8,6 +8,7 @@ package main
 import (
 	"fmt"
 	"strings"
+	"unicode/utf8"
 )
 
 // Ref is a URL reference AST (coq/Html/Ref.v).
@@ -66,8 +67,12 @@ type interner struct {
 var curIntern *interner
 
 func coqLit(s string) string {
+	// raw text for printable ASCII, tab, newline and valid UTF-8; hex for everything else
+	if !utf8.ValidString(s) {
+		return coqHex([]byte(s))
+	}
 	for i := 0; i < len(s); i++ {
-		if s[i] < 0x20 || s[i] > 0x7e {
+		if (s[i] < 0x20 && s[i] != '\n' && s[i] != '\t') || s[i] == 0x7f {
 			return coqHex([]byte(s))
 		}
 	}
